@@ -44,6 +44,9 @@ LdrMatches(s, j) ==
         /\ Len(s.ldr.neQ) = Len(j.ldr.neQ)
         /\ \A k \in 1..Len(s.ldr.neQ) : s.ldr.neQ[k].i = j.ldr.neQ[k].i /\ s.ldr.neQ[k].y = j.ldr.neQ[k].y
         /\ Len(s.ldr.replQ) = j.ldr.replQ
+        /\ s.ldr.xfer.on = j.ldr.xfer
+        /\ s.ldr.xfer.on => (/\ s.ldr.xfer.term = j.ldr.xferTerm /\ s.ldr.xfer.target = j.ldr.xferTo
+                             /\ s.ldr.xfer.resp = j.ldr.xferResp /\ s.ldr.xfer.nt = j.ldr.xferNt)
         /\ DOMAIN s.ldr.repl = {j.ldr.repls[k].id : k \in 1..Len(j.ldr.repls)}
         /\ \A k \in 1..Len(j.ldr.repls) : ReplMatches(s.ldr.repl[j.ldr.repls[k].id], j.ldr.repls[k])
 
@@ -74,16 +77,21 @@ DebugPrint == (l = DebugAt /\ DebugAt > 0) => PrintT(<<"SPEC-STATE", ToJson([nod
 
 ActOf(a) == IF "voters" \in DOMAIN a THEN [a EXCEPT !.voters = {a.voters[k] : k \in 1..Len(a.voters)}] ELSE a
 ActsOf(e) == IF "acts" \in DOMAIN e THEN {ActOf(e.acts[k]) : k \in 1..Len(e.acts)} ELSE {}
+\* tasks completed in the step: the same (node, operation, result) multiset in the specification and in the real run
+RealDone == {[n |-> Rec.done[k].n, op |-> Rec.done[k].op, res |-> Rec.done[k].err,
+              k |-> Cardinality({i \in 1..k : Rec.done[i].n = Rec.done[k].n /\ Rec.done[i].op = Rec.done[k].op /\ Rec.done[i].err = Rec.done[k].err})]
+             : k \in 1..Len(Rec.done)}
+DoneMatches == ev'.done = RealDone
 StimRf == IF "rf" \in DOMAIN Rec.stim THEN Rec.stim.rf ELSE TRUE
 \* The order in which Go ranges over l.repls in the NEXT step is a prophecy variable of Raft.tla (ordc). It can
 \* only matter when that step performs a membership action, which the next record tells; otherwise one fixed
 \* order is tried. rfc (round-fast outcome of the next step) is read from the next record's stimulus.
 NextNeedsOrd == l + 2 <= Len(Trace) /\ "acts" \in DOMAIN Trace[l + 2].ev
-                  /\ \E k \in 1..Len(Trace[l + 2].ev.acts) : Trace[l + 2].ev.acts[k].kind = "action"
+                  /\ \E k \in 1..Len(Trace[l + 2].ev.acts) : Trace[l + 2].ev.acts[k].kind \in {"action", "xferTarget"}
 FixedOrd == CHOOSE q \in AllOrds : \A k \in 1..(Len(q) - 1) : q[k] < q[k + 1]
 NextRf == IF l + 2 <= Len(Trace) /\ "rf" \in DOMAIN Trace[l + 2].stim THEN Trace[l + 2].stim.rf ELSE TRUE
 Prophecy == ordc' \in (IF NextNeedsOrd THEN AllOrds ELSE {FixedOrd}) /\ rfc' = NextRf
-Step(A) == l < Len(Trace) /\ Prophecy /\ A /\ l' = l + 1 /\ Matches /\ (ev'.acts = ActsOf(Ev) \/ l + 1 = DebugAt)
+Step(A) == l < Len(Trace) /\ Prophecy /\ A /\ l' = l + 1 /\ Matches /\ ((ev'.acts = ActsOf(Ev) /\ DoneMatches) \/ l + 1 = DebugAt)
 
 IsEv(k) == l < Len(Trace) /\ Ev.kind = k
 Has(f) == f \in DOMAIN Ev
@@ -101,15 +109,15 @@ TSkipped ==
 TTimeout == IsEv("timeout") /\ Step(Timeout(Ev.n))
 
 TVoteReq ==
-    /\ IsEv("voteReq")
-    /\ \E m \in rpcs : m.kind = "vote" /\ m.phase = 0 /\ m.from = Ev.from /\ m.to = Ev.n /\ m.term = Ev.term
+    /\ (IsEv("voteReq") \/ IsEv("timeoutNowReq"))
+    /\ \E m \in rpcs : m.kind = (IF IsEv("voteReq") THEN "vote" ELSE "timeoutNow") /\ m.phase = 0 /\ m.from = Ev.from /\ m.to = Ev.n /\ m.term = Ev.term
           /\ Step(RpcReq(m))
           /\ (Has("result") => (ev'.result = Ev.result /\ ev'.respTerm = Ev.respTerm))
 
 TVoteResp ==
-    /\ IsEv("voteResp")
+    /\ (IsEv("voteResp") \/ IsEv("timeoutNowResp"))
     /\ IF Has("self") THEN Step(SelfVote(Ev.n))
-       ELSE \E m \in rpcs : m.kind = "vote" /\ m.phase = 1 /\ m.from = Ev.n /\ m.to = Ev.from /\ m.term = Ev.term
+       ELSE \E m \in rpcs : m.kind = (IF IsEv("voteResp") THEN "vote" ELSE "timeoutNow") /\ m.phase = 1 /\ m.from = Ev.n /\ m.to = Ev.from /\ m.term = Ev.term
               /\ Step(RpcResp(m))
 
 TReplSend == IsEv("replSend") /\ ~Has("skipped") /\ Step(ReplSend(Ev.i, Ev.j))
@@ -139,6 +147,9 @@ TFsm        == IsEv("fsm") /\ Step(Fsm(Ev.n))
 TCrash      == IsEv("crash") /\ Step(Crash(Ev.n))
 TRestart    == IsEv("restart") /\ Step(Restart(Ev.n))
 TChangeCfg  == IsEv("changeConfig") /\ Step(ChangeConfigOp(Ev.n, NodesFun(Ev.nodes)))
+TTransfer   == IsEv("transfer") /\ Step(TransferOp(Ev.n, Ev.target))
+TXferTmo    == IsEv("xferTimeout") /\ Step(XferTimeout(Ev.n))
+TNewTermTmo == IsEv("newTermTimeout") /\ Step(NewTermTimeout(Ev.n))
 TShutdown   == IsEv("shutdown") /\ Step(Shutdown(Ev.n))
 TFinal      == (IsEv("final") \/ IsEv("fairCheck")) /\ l' = l + 1 /\ Prophecy /\ UNCHANGED <<node, rpcs, orph, gh, ctr, ev, hist>>
 TDisc       == IsEv("disconnected")
@@ -147,7 +158,7 @@ TDisc       == IsEv("disconnected")
 
 TInit == Init /\ l = 0 /\ ordc = FixedOrd /\ rfc = TRUE
 TNext == \/ TReset \/ TSkipped \/ TTimeout \/ TVoteReq \/ TVoteResp \/ TReplSend \/ TAppendReq \/ TAppendResp
-         \/ TReplFail \/ TReplPoll \/ TLdrUpdates \/ TClient \/ TFsm \/ TCrash \/ TRestart \/ TDisc \/ TShutdown \/ TFinal \/ TChangeCfg \/ TTakeSnap \/ TSnapGAsk \/ TSnapGStore \/ TSnapTaken
+         \/ TReplFail \/ TReplPoll \/ TLdrUpdates \/ TClient \/ TFsm \/ TCrash \/ TRestart \/ TDisc \/ TShutdown \/ TTransfer \/ TXferTmo \/ TNewTermTmo \/ TFinal \/ TChangeCfg \/ TTakeSnap \/ TSnapGAsk \/ TSnapGStore \/ TSnapTaken
 
 \* printed at every state; the last line printed tells how far the trace was accepted
 Progress == (l = Len(Trace)) => PrintT(<<"TRACE-ACCEPTED", l>>)
